@@ -71,19 +71,27 @@ struct Cmp {
             got[3] = x <= y;
             got[4] = x > y;
             got[5] = x >= y;
-            if constexpr (std::is_same_v<T1, T2>) {
-                // std::gcd's own precondition: |component| representable
-                if (ord == 0 && a != int_min<T1>() && b != int_min<T1>() && c != int_min<T1>() && d != int_min<T1>()) {
-                    // canonical form must be representable too
-                    hashed = true;
-                    h1 = std::hash<cnl::fraction<T1>>{}(x);
-                    h2 = std::hash<cnl::fraction<T1>>{}(y);
-                }
-            }
         });
         if (!ok) {
             o.fclass = "cmp/" + o.fclass;
             return;
+        }
+        // cause region: a most negative 32/64-bit component reaches std::gcd, whose precondition (|m|, |n| representable) it violates
+        std::string cause = "";
+        if constexpr (std::is_same_v<T1, T2>) {
+            if (bits_v<T1> >= 32 && (a == int_min<T1>() || b == int_min<T1>() || c == int_min<T1>() || d == int_min<T1>())) cause = "most-negative-component/";
+            // the canonical form (lowest terms, positive denominator) must be representable in the component type
+            mpq_class const vq = mkq(to_mpz(a), to_mpz(b));
+            if (ord == 0 && fits<T1>(vq.get_num()) && fits<T1>(vq.get_den())) {
+                hashed = true;
+                if (!cause.empty()) o.region = "hash/" + cause;
+                Outcome o2;
+                bool ok2 = guard(o2, [&] {
+                    h1 = std::hash<cnl::fraction<T1>>{}(cnl::fraction<T1>(a, b));
+                    h2 = std::hash<cnl::fraction<T1>>{}(cnl::fraction<T1>(c, d));
+                });
+                if (!ok2) return o.fail("hash/" + cause + o2.fclass, o2.msg);
+            }
         }
         bool expect[6] = {ord == 0, ord != 0, ord < 0, ord <= 0, ord > 0, ord >= 0};
         static char const* names[6] = {"==", "!=", "<", "<=", ">", ">="};
@@ -93,7 +101,7 @@ struct Cmp {
                 return o.fail(cls + "/value-mismatch",
                               std::string("operator") + names[i] + " expected " + (expect[i] ? "true" : "false") + " got " + (got[i] ? "true" : "false"));
             }
-        if (hashed && h1 != h2) return o.fail("hash-of-equal-fractions-differs", "hashes " + std::to_string(h1) + " vs " + std::to_string(h2));
+        if (hashed && h1 != h2) return o.fail(cause + "hash-of-equal-fractions-differs", "hashes " + std::to_string(h1) + " vs " + std::to_string(h2));
         o.pass(b < 0 || d < 0 || ngcd(a, b) > 1,
                ord == 0 ? (hashed ? "equal+hash" : "equal") : mixed_den ? "one-negative-denominator"
                                                            : (b < 0)    ? "both-negative-denominators"
@@ -270,7 +278,10 @@ struct Single {
         float gf = 0;
         double gdbl = 0;
         long double gl = 0;
-        bool gcd_ok = n != int_min<T>() && d != int_min<T>();  // std::gcd's precondition
+        bool gcd_ok = true;  // (most negative components included: the quantifier is "all numerators and denominators")
+        // cause region: a most negative 32/64-bit component reaches std::gcd, whose precondition (|m|, |n| representable) it violates
+        std::string const cause = (bits_v<T> >= 32 && (n == int_min<T>() || d == int_min<T>())) ? "most-negative-component/" : "";
+        o.region = cause.empty() ? "" : "single/" + cause;
         mpz_class rn, rd, cn, cd;
         bool canon_representable = fits<T>(v.get_num()) && fits<T>(v.get_den());
         bool ok = guard(o, [&] {
@@ -288,18 +299,18 @@ struct Single {
             }
         });
         if (!ok) {
-            o.fclass = "single/" + o.fclass;
+            o.fclass = "single/" + cause + o.fclass;
             return;
         }
         if (std::memcmp(&gf, &ef, sizeof gf) || std::memcmp(&gdbl, &ed, sizeof gdbl) || gl != el)
             return o.fail("to-floating/value-mismatch", "double: expected " + fstr(ed) + " got " + fstr(gdbl));
         if (gcd_ok) {
-            if (rd == 0 || mkq(rn, rd) != v) return o.fail("reduce/value-changed", "got " + zstr(rn) + "/" + zstr(rd));
-            if (gcd(rn, rd) != 1) return o.fail("reduce/not-lowest-terms", "got " + zstr(rn) + "/" + zstr(rd));
+            if (rd == 0 || mkq(rn, rd) != v) return o.fail(cause + "reduce/value-changed", "got " + zstr(rn) + "/" + zstr(rd));
+            if (gcd(rn, rd) != 1) return o.fail(cause + "reduce/not-lowest-terms", "got " + zstr(rn) + "/" + zstr(rd));
             if (canon_representable) {
-                if (cd == 0 || mkq(cn, cd) != v) return o.fail("canonical/value-changed", "got " + zstr(cn) + "/" + zstr(cd));
-                if (gcd(cn, cd) != 1) return o.fail("canonical/not-lowest-terms", "got " + zstr(cn) + "/" + zstr(cd));
-                if (cd <= 0) return o.fail("canonical/denominator-not-positive", "got " + zstr(cn) + "/" + zstr(cd));
+                if (cd == 0 || mkq(cn, cd) != v) return o.fail(cause + "canonical/value-changed", "got " + zstr(cn) + "/" + zstr(cd));
+                if (gcd(cn, cd) != 1) return o.fail(cause + "canonical/not-lowest-terms", "got " + zstr(cn) + "/" + zstr(cd));
+                if (cd <= 0) return o.fail(cause + "canonical/denominator-not-positive", "got " + zstr(cn) + "/" + zstr(cd));
             }
         }
         o.pass(d < 0 || gcd(zn, zd) > 1, !gcd_ok ? "float-only" : d < 0 ? "negative-denominator"
@@ -323,5 +334,73 @@ struct Single {
         check(static_cast<T>(static_cast<U>(idx)), static_cast<T>(static_cast<U>(idx >> bits_v<T>)), o, desc);
     }
     static void reg() { add_site({"C16|single|" + tname<T>::get(), run, enum_size(), run_enum}); }
+};
+////////////////////////////////////////////////////////////////////////////////
+// comparisons of fractions whose four components have their own types (fraction<N1, D1> vs fraction<N2, D2>, unsigned ones
+// included): cnl::make_fraction(1LL, -2) < cnl::make_fraction(1LL, 3u). Precondition as stated in the property: both cross
+// products fit, here: fit the type in which the implementation's natural expression n1 * d2 <=> n2 * d1 compares them.
+template<class N1, class D1, class N2, class D2>
+struct CmpND {
+    using P1 = decltype(std::declval<N1>() * std::declval<D2>());
+    using P2 = decltype(std::declval<N2>() * std::declval<D1>());
+    using C = std::common_type_t<P1, P2>;
+    static void check(N1 a, D1 b, N2 c, D2 d, Outcome& o, std::string* desc)
+    {
+        if (desc) *desc = istr(a) + "/" + istr(b) + " vs " + istr(c) + "/" + istr(d);
+        o.fp = fpn(a, b, c, d);
+        if (b == 0 || d == 0) return o.discard("zero-denominator");
+        mpz_class l = to_mpz(a) * to_mpz(d), r = to_mpz(c) * to_mpz(b);
+        if (!fits<P1>(l) || !fits<P2>(r) || !fits<C>(l) || !fits<C>(r)) return o.discard("cross-product-does-not-fit");
+        int ord = cmp(mkq(to_mpz(a), to_mpz(b)), mkq(to_mpz(c), to_mpz(d)));
+        bool const mixed_den = (to_mpz(b) < 0) != (to_mpz(d) < 0);
+        bool got[6] = {}, rev[6] = {};
+        bool ok = guard(o, [&] {
+            cnl::fraction<N1, D1> x(a, b);
+            cnl::fraction<N2, D2> y(c, d);
+            got[0] = x == y, got[1] = x != y, got[2] = x < y, got[3] = x <= y, got[4] = x > y, got[5] = x >= y;
+            rev[0] = y == x, rev[1] = y != x, rev[2] = y > x, rev[3] = y >= x, rev[4] = y < x, rev[5] = y <= x;
+        });
+        if (!ok) {
+            o.fclass = "cmpnd/" + o.fclass;
+            return;
+        }
+        bool expect[6] = {ord == 0, ord != 0, ord < 0, ord <= 0, ord > 0, ord >= 0};
+        static char const* names[6] = {"==", "!=", "<", "<=", ">", ">="};
+        for (int i = 0; i < 6; ++i)
+            if (got[i] != expect[i] || rev[i] != expect[i]) {
+                std::string cls = i < 2 ? "equality" : (mixed_den ? "order/one-negative-denominator" : "order");
+                return o.fail("cmpnd/" + cls + "/value-mismatch", std::string("operator") + names[i] + (got[i] != expect[i] ? "" : " (operands swapped)") + " expected " + (expect[i] ? "true" : "false"));
+            }
+        o.pass(to_mpz(b) < 0 || to_mpz(d) < 0 || ord == 0, ord == 0 ? "equal" : mixed_den ? "one-negative-denominator"
+                                                                    : (to_mpz(b) < 0) ? "both-negative-denominators"
+                                                                                      : "positive-denominators");
+    }
+    template<class T>
+    static T part(Words& w, bool nonzero, int shrink)
+    {
+        T v = draw_int<T>(w);
+        if (shrink) {
+            int sh = bits_v<T> / 2 + int(w.next() % 3) - 1;
+            v = static_cast<T>(v >> (shrink == 1 ? sh : bits_v<T> - 4));
+        }
+        if (nonzero && v == 0) v = static_cast<T>(is_signed_int_v<T> && (w.next() & 1) ? -1 : 1);
+        return v;
+    }
+    static void run(Words& w, Outcome& o, std::string* desc)
+    {
+        unsigned m = unsigned(w.next() % 6);
+        int shrink = m == 0 ? 0 : m <= 3 ? 1 : 2;
+        N1 a = part<N1>(w, false, shrink);
+        D1 b = part<D1>(w, true, shrink);
+        N2 c = part<N2>(w, false, shrink);
+        D2 d = part<D2>(w, true, shrink);
+        if (m == 3 || m == 5) {  // proportional or neighbouring: c/d == a/b times k/k, numerator moved by -1, 0 or +1
+            long k = draw_small(w, 1, 4) * ((w.next() & 1) ? -1 : 1);
+            mpz_class zc = to_mpz(a) * k + (long(w.next() % 3) - 1), zd = to_mpz(b) * k;
+            if (fits<N2>(zc) && fits<D2>(zd) && zd != 0) c = from_mpz<N2>(zc), d = from_mpz<D2>(zd);
+        }
+        check(a, b, c, d, o, desc);
+    }
+    static void reg() { add_site({"C16|cmpnd|" + tname<N1>::get() + "_" + tname<D1>::get() + "|" + tname<N2>::get() + "_" + tname<D2>::get(), run, 0, nullptr}); }
 };
 }  // namespace c16
